@@ -28,7 +28,9 @@ type corpusEntry struct {
 
 func loadCorpus() []corpusEntry {
 	var out []corpusEntry
-	for _, root := range []string{"seeded", "selftest/mutants", "selftest/harmless"} {
+	// seeded/_unconfirmed: changes whose demonstration no longer reproduces on the current tree after later repairs
+	// (the window they need became narrower); they still have to be flagged
+	for _, root := range []string{"seeded", "seeded/_unconfirmed", "selftest/mutants", "selftest/harmless"} {
 		dirs, _ := filepath.Glob(filepath.Join(verifDir, root, "*"))
 		sort.Strings(dirs)
 		for _, d := range dirs {
